@@ -172,6 +172,7 @@ class _NormalForm(ast.NodeTransformer):
                                 to preserve: a literal has no effects)
       `x = x + k` -> `x += k`   local name, + or -, integer literal k (then `x` is a number: no in-place/aliasing
                                 difference between the two forms)
+      `if a: if b: X` -> `if a and b: X`   neither `if` has an else and the inner one is the whole body
     """
 
     def __init__(self):
@@ -183,6 +184,19 @@ class _NormalForm(ast.NodeTransformer):
             self.count += 1
             return ast.copy_location(ast.Compare(left=n.comparators[0], ops=[_FLIP[type(n.ops[0])]()],
                                                  comparators=[n.left]), n)
+        return n
+
+    def visit_If(self, n):
+        # `if a: if b: X` (no else on either, nothing else in the outer body)  ->  `if a and b: X`
+        self.generic_visit(n)
+        while not n.orelse and len(n.body) == 1 and isinstance(n.body[0], ast.If) and not n.body[0].orelse:
+            inner = n.body[0]
+            vals = []
+            for t in (n.test, inner.test):
+                vals.extend(t.values if isinstance(t, ast.BoolOp) and isinstance(t.op, ast.And) else [t])
+            n.test = ast.copy_location(ast.BoolOp(op=ast.And(), values=vals), n.test)
+            n.body = inner.body
+            self.count += 1
         return n
 
     def visit_Assign(self, n):
